@@ -79,6 +79,7 @@ type c28Case struct {
 	Start int64   `json:"start"`
 	End   int64   `json:"end"`
 	Step  int64   `json:"step"`
+	Wide  bool    `json:"storage_ignores_time_bounds"`
 }
 
 func (c c28Case) expr() string {
@@ -218,8 +219,11 @@ func (c c28Case) expect(s []pr_Sample, st *c28Stats) []pr_Point {
 
 func (c c28Case) class() string {
 	p := ""
+	if c.Wide {
+		p = "unboundedstorage-"
+	}
 	if c.Range {
-		p = "rangequery-"
+		p += "rangequery-"
 	}
 	switch c.Form {
 	case "inst":
@@ -309,8 +313,8 @@ func c28Datasets(times []int64, fullN, maxN int) []pr_Series {
 				if kinds == 2 && kind == 1 {
 					kind = pr_S
 				}
-				// the value identifies the sample: position of its timestamp + 1
-				se.Samples = append(se.Samples, pr_Sample{T: times[ti], K: kind, F: float64(ti + 1)})
+				// the value identifies the sample (derived from its timestamp)
+				se.Samples = append(se.Samples, pr_Sample{T: times[ti], K: kind, F: float64(times[ti]/10 + 1)})
 			}
 			if len(se.Samples) > 0 {
 				out = append(out, se)
@@ -378,9 +382,9 @@ func c28Cases(r *vx.Run) []c28Case {
 		m1s = append(m1s, c28Mods{Off: -1000}, c28Mods{At: 2}, c28Mods{At: 1, AtT: 0, Off: -1000, AtFirst: true})
 		m2s = append(m2s, c28Mods{Off: -1}, c28Mods{At: 3, Off: 1000}, c28Mods{At: 1, AtT: 999})
 	}
-	sqR := vx.Pick(r, []int64{1000, 2000, 2500}, []int64{1000, 2000, 2500, 1001, 3000})
-	sqS := vx.Pick(r, []int64{1000, 500, 0}, []int64{1000, 500, 0, 1001, 2000, 3000})
-	sqT := vx.Pick(r, []int64{0, 1000, 2000, 2001, 3000, 4001}, evalT)
+	sqR := vx.Pick(r, []int64{1000, 2000, 2500}, []int64{1000, 2000, 2500, 1001})
+	sqS := vx.Pick(r, []int64{1000, 500, 0}, []int64{1000, 500, 0, 1001, 2000})
+	sqT := vx.Pick(r, []int64{0, 1000, 2001, 3000}, []int64{0, 1000, 1999, 2000, 2001, 3000, 3001, 4001})
 	for _, form := range []string{"subq", "subqp", "subq_cot", "cot_subq"} {
 		for _, m1 := range m1s {
 			if form == "subq" && m1 != (c28Mods{}) {
@@ -415,10 +419,7 @@ func c28Cases(r *vx.Run) []c28Case {
 	var grids []grid
 	for _, st := range vx.Pick(r, []int64{0, 999}, []int64{0, 999, 1000, 2001}) {
 		for _, span := range vx.Pick(r, []int64{2000, 4001}, []int64{0, 2000, 3000, 4001}) {
-			for _, step := range vx.Pick(r, []int64{500, 1000, 1001, 3000}, []int64{1, 500, 999, 1000, 1001, 2000, 3000}) {
-				if step == 1 && span > 2000 {
-					continue
-				}
+			for _, step := range vx.Pick(r, []int64{500, 1000, 1001, 3000}, []int64{250, 500, 999, 1000, 1001, 2000, 3000}) {
 				grids = append(grids, grid{st, st + span, step})
 			}
 		}
@@ -487,7 +488,11 @@ func TestVerifC28(t *testing.T) {
 			t.Fatal(err)
 		}
 		defer stor.Close()
-		res := c28Run(rp.Case, eng, stor)
+		var q pr_Stor = stor
+		if rp.Case.Wide {
+			q = pr_Wide(stor)
+		}
+		res := c28Run(rp.Case, eng, q)
 		var st c28Stats
 		exp := rp.Case.expect(rp.Series.Samples, &st)
 		got := res.Series[rp.Series.ID]
@@ -543,9 +548,18 @@ func TestVerifC28(t *testing.T) {
 	times := []int64{0, 999, 1000, 1001, 1999, 2000, 2001, 3000}
 	fullN, maxN := 2, 2
 	if r.Thorough() {
-		fullN, maxN = 3, 4
+		fullN, maxN = 3, 3
 	}
 	data := c28Datasets(times, fullN, maxN)
+	if r.Quick() {
+		// plus every 3-sample float/stale series over the whole-second timestamps
+		for _, se := range c28Datasets([]int64{0, 1000, 2000, 3000}, 0, 3) {
+			if len(se.Samples) == 3 {
+				se.ID = strconv.Itoa(len(data))
+				data = append(data, se)
+			}
+		}
+	}
 	stor, err := pr_NewStorage(c28Metric, data, false)
 	if err != nil {
 		t.Fatal(err)
@@ -555,9 +569,17 @@ func TestVerifC28(t *testing.T) {
 
 	var evals, queries, nonEmpty atomic.Int64
 	var agg [5]atomic.Int64
-	r.ParallelN(int64(len(cases)), func(i int64) {
+	wide := pr_Wide(stor)
+	r.ParallelN(int64(2*len(cases)), func(i2 int64) {
+		i := i2 / 2
 		c := cases[i]
-		res := c28Run(c, eng, stor)
+		c.Wide = i2%2 == 1
+		var res pr_Result
+		if c.Wide {
+			res = c28Run(c, eng, wide)
+		} else {
+			res = c28Run(c, eng, stor)
+		}
 		queries.Add(1)
 		if res.Err != nil {
 			r.Violation("query-error", fmt.Sprintf("%s: %v", c.expr(), res.Err), c28Replay{Case: c, Query: c.expr(), Series: data[0]})
@@ -567,7 +589,8 @@ func TestVerifC28(t *testing.T) {
 			r.Violation("duplicate-series-in-result", fmt.Sprintf("%s: series %s twice", c.expr(), res.Dup), c28Replay{Case: c, Query: c.expr(), Series: data[0]})
 		}
 		var st c28Stats
-		seen := 0
+		seen, ne := 0, 0
+		outcomes := map[uint64]struct{}{}
 		for k := range data {
 			se := &data[k]
 			exp := c.expect(se.Samples, &st)
@@ -584,22 +607,27 @@ func TestVerifC28(t *testing.T) {
 					c28Replay{Case: c, Query: c.expr(), Series: *se})
 			}
 			if len(exp) > 0 {
-				nonEmpty.Add(1)
-				r.Distinct("distinct_outcomes", pr_PointsString(exp))
+				ne++
+				h := pr_HashPoints(exp)
+				if _, ok := outcomes[h]; !ok {
+					outcomes[h] = struct{}{}
+					r.Distinct("distinct_outcomes", strconv.FormatUint(h, 16))
+				}
 			}
 		}
+		nonEmpty.Add(int64(ne))
 		if seen != len(res.Series) {
 			r.Violation("unknown-series-in-result", fmt.Sprintf("%s: %d result series, %d known", c.expr(), len(res.Series), seen), c28Replay{Case: c, Query: c.expr(), Series: data[0]})
 		}
 		if len(res.Series) > 0 {
-			r.Distinct("distinct_nontrivial", c.expr()+"|"+fmt.Sprint(c.L, c.T, c.Start, c.End, c.Step))
+			r.Distinct("distinct_nontrivial", c.expr()+"|"+fmt.Sprint(c.L, c.T, c.Start, c.End, c.Step, c.Wide))
 		}
 		evals.Add(int64(len(data)))
 		agg[0].Add(int64(st.leftEdge))
 		agg[1].Add(int64(st.rightEdge))
 		agg[2].Add(int64(st.staleIn))
 		agg[4].Add(int64(st.shifted))
-		r.SampleAt(i, func() any {
+		r.SampleAt(i2, func() any {
 			se := data[len(data)/2]
 			var s2 c28Stats
 			return map[string]any{"query": c.expr(), "case": c, "series_in_storage": len(data), "example_series": se,
@@ -614,10 +642,10 @@ func TestVerifC28(t *testing.T) {
 	r.Count("stale_marker_inside_window", int(agg[2].Load()))
 	r.Count("window_shifted_by_offset_or_at", int(agg[4].Load()))
 	r.Set("series", len(data))
-	r.Set("queries_total", len(cases))
+	r.Set("queries_total", 2*len(cases))
 	r.Set("candidate_sample_times_ms", times)
 	r.Set("max_samples_per_series", maxN)
-	r.Set("rule", fmt.Sprintf("every series of <=%d samples over timestamps %v (each sample float/histogram/stale up to %d samples, float/stale beyond) is stored once; every query of the forms selector, timestamp(selector), selector[r], count/last_over_time(selector[r]), selector[r:s], (selector mods)[r:s] mods, count_over_time(selector[r])[r:s], count_over_time((selector)[r:s]) x grids of eval time, lookback, range, subquery range/step (incl. default), offset(+/-) and @ (fixed/start()/end(), both orders) is run as instant query, and selector/timestamp/count/last/count-of-subquery forms also as range queries over a start/end/step grid; evaluations = (query, series) comparisons with the reference; distinct_nontrivial = distinct queries with a non-empty result; distinct_outcomes = distinct non-empty expected per-series results", maxN, times, fullN))
+	r.Set("rule", fmt.Sprintf("every series of <=%d samples over timestamps %v (each sample float/histogram/stale up to %d samples, float/stale beyond) is stored once; every query of the forms selector, timestamp(selector), selector[r], count/last_over_time(selector[r]), selector[r:s], (selector mods)[r:s] mods, count_over_time(selector[r])[r:s], count_over_time((selector)[r:s]) x grids of eval time, lookback, range, subquery range/step (incl. default), offset(+/-) and @ (fixed/start()/end(), both orders) is run (once against the storage as is, once against a wrapper that ignores the time bounds/hints and returns all samples) as instant query, and selector/timestamp/count/last/count-of-subquery forms also as range queries over a start/end/step grid; evaluations = (query, series) comparisons with the reference; distinct_nontrivial = distinct queries with a non-empty result; distinct_outcomes = distinct non-empty expected per-series results", maxN, times, fullN))
 	if !r.Expired() && r.Violations() == 0 {
 		if agg[0].Load() == 0 || agg[1].Load() == 0 || agg[2].Load() == 0 || agg[4].Load() == 0 || nonEmpty.Load() == 0 {
 			t.Fatal("vacuous run: no edge-coincident samples / stale markers / shifted windows were exercised")
